@@ -4,6 +4,7 @@ from .core import FLAVOURS, DIRECTED, UNDIRECTED, SYNC, PLAIN
 from . import rules_kernel as rk, dispatch as dp, rules_guard as rg, rules_edge as re_, rules_bt as rb, rules_misc as rm, rules_c16 as r16, rules_own as ro, rules_container as rc, rules_serde as rs, rules_scc as rscc, rules_sib as rsib, rules_mac as rmac
 
 ALLF = ('Bfs', 'Dfs', 'Pfs', 'Order')
+DISC6 = ('DISC', 'DISC-i', 'DISC-ii', 'DISC-iii', 'DISC-iv', 'DISC-v', 'DISC-vi')   # DISC-vii (live iteration) is C20's clause
 HERE = os.path.dirname(os.path.abspath(__file__))
 
 
@@ -13,16 +14,15 @@ def _r(name, fn, *args, only=None, **kw):
     return (name, lambda ctx: fn(ctx, *args, **kw))
 
 
-def kernel_pack(fams, flavours, bt=True):
+def kernel_pack(fams, flavours, which=None):
     """the rule families every search property shares, restricted to the kernel families / flavours it is about"""
     pack = [
         _r('ROLES', rk.roles, fams, flavours),
-        _r('DISC', rk.disc, fams, flavours),
+        _r('DISC', rk.disc, fams, flavours, only=DISC6),
         _r('EXH', rk.exh, fams, flavours),
-        _r('EXEC1', rk.exec1, fams, flavours),
         _r('FRONT', rk.frontier, fams, flavours),
         _r('TR0', rk.tr0, fams, flavours),
-        _r('INIT', dp.init, flavours, fams),
+        _r('INIT', dp.init, flavours, fams, which),
     ]
     return pack
 
@@ -76,16 +76,16 @@ PROPS['C03'] = dict(
 )
 PROPS['C20'] = dict(
     rules=[_r('IT1', rg.it1, FLAVOURS), _r('IT2', rg.it2, FLAVOURS), _r('G2', rg.g2, FLAVOURS), _r('G3', rg.g3, FLAVOURS),
-           _r('ROLES', rk.roles, ALLF, FLAVOURS), _r('DISC', rk.disc, ALLF, FLAVOURS, only=('DISC-ii', 'DISC-iii'))],
+           _r('ROLES', rk.roles, ALLF, FLAVOURS), _r('TERM', rk.term, ALLF, FLAVOURS), _r('DISC', rk.disc, ALLF, FLAVOURS, only=('DISC-vii',))],
     explanation='A guard-lifetime statement: no iterator/builder type stores a guard (IT1); each node-iterator step takes one shared guard, reads the live entry at its position and '
                 'releases (IT2); no guard is held where a user callback runs or where an iterator is advanced, in all 48 kernels, isolate, scc, DOT and serde writers (G2); no conflicting '
-                're-acquisition anywhere (G3). Termination clause: nodes enter a frontier only when newly marked (DISC ii/iii).',
+                're-acquisition anywhere (G3). Termination clause: nodes enter a frontier only when newly marked (TERM); edges are walked live from the node iterator, not from a snapshot (DISC-vii).',
     decides='which guards are live at every call site of every function (forward dataflow on MIR with function summaries)',
     does_not_decide='re-entrancy through payload trait impls that run under a guard in next()/find_* (E::clone, K::eq), assumed not to call back into the graph',
     assumptions=STD,
 )
 PROPS['C04'] = dict(
-    rules=kernel_pack(('Bfs',), FLAVOURS) + [_r('RESMAP', dp.result_map, FLAVOURS, ('Bfs',)), _r('TR1', dp.tr1, DIRECTED, ('Bfs',)), _r('METHOD', rk.method, FLAVOURS), _r('BT', rb.bt, FLAVOURS)],
+    rules=kernel_pack(('Bfs',), FLAVOURS, 'path') + [_r('RESMAP', dp.result_map, FLAVOURS, ('Bfs',), 'path'), _r('TR1', dp.tr1, DIRECTED, ('Bfs',), 'path'), _r('METHOD', rk.method, FLAVOURS), _r('BT', rb.bt, FLAVOURS)],
     explanation='Breadth-first kernels (12) and their entry points: FIFO frontier (BFS1), discovery discipline (DISC i-vii), exhaustive expansion (EXH), '
                 'callback-first (EXEC1), orientation (TR0/TR1), seeding (INIT), result mapping (RESMAP), back-tracking (BT) decided on MIR by dominance and provenance.',
     decides='the structural premises of the textbook BFS argument on every path of every kernel and entry point',
@@ -94,7 +94,7 @@ PROPS['C04'] = dict(
 )
 
 PROPS['C05'] = dict(
-    rules=kernel_pack(('Dfs',), FLAVOURS) + [_r('RESMAP', dp.result_map, FLAVOURS, ('Dfs',)), _r('TR1', dp.tr1, DIRECTED, ('Dfs',)), _r('METHOD', rk.method, FLAVOURS), _r('BT', rb.bt, FLAVOURS)],
+    rules=kernel_pack(('Dfs',), FLAVOURS, 'path') + [_r('RESMAP', dp.result_map, FLAVOURS, ('Dfs',), 'path'), _r('TR1', dp.tr1, DIRECTED, ('Dfs',), 'path'), _r('METHOD', rk.method, FLAVOURS), _r('BT', rb.bt, FLAVOURS)],
     explanation='Depth-first kernels (12 recursive) and entries: LIFO frontier with push(FAR) immediately followed by the recursive call (DFS1), discovery discipline (DISC), no early exit and '
                 'found-propagation (EXH), callback-first (EXEC1), orientation, seeding, result mapping and back-tracking (BT).',
     decides='the structural premises of "DFS finds a simple path iff reachable" on every path of every kernel',
@@ -102,7 +102,7 @@ PROPS['C05'] = dict(
     assumptions=STD,
 )
 PROPS['C06'] = dict(
-    rules=kernel_pack(('Pfs',), FLAVOURS) + [_r('PFS1', dp.pfs1, FLAVOURS), _r('RESMAP', dp.result_map, FLAVOURS, ('Pfs',)), _r('TR1', dp.tr1, DIRECTED, ('Pfs',)),
+    rules=kernel_pack(('Pfs',), FLAVOURS, 'path') + [_r('PFS1', dp.pfs1, FLAVOURS, 'path'), _r('RESMAP', dp.result_map, FLAVOURS, ('Pfs',), 'path'), _r('TR1', dp.tr1, DIRECTED, ('Pfs',), 'path'),
                                            _r('METHOD', rk.method, FLAVOURS), _r('BT', rb.bt, FLAVOURS), _r('ORD-NODE', rm.ord_node, FLAVOURS), _r('PFS-SEARCH', rm.pfs_search, FLAVOURS)],
     explanation='Priority-first kernels (12) and entries: BinaryHeap pop/push with Reverse exactly on the Min arms (PFS-FRONT, PFS1), discovery discipline incl. closing edge recorded before '
                 'FOUND (DISC iv/v), no early exit, node ordering by value identically through Ord and PartialOrd and equality by key (ORD-NODE), search = last node of search_path.',
@@ -111,7 +111,7 @@ PROPS['C06'] = dict(
     assumptions=STD,
 )
 PROPS['C07'] = dict(
-    rules=[_r('ROLES', rk.roles, ALLF, FLAVOURS), _r('EXEC1', rk.exec1, ALLF, FLAVOURS), _r('DISC', rk.disc, ALLF, FLAVOURS), _r('EXH', rk.exh, ALLF, FLAVOURS),
+    rules=[_r('ROLES', rk.roles, ALLF, FLAVOURS), _r('EXEC1', rk.exec1, ALLF, FLAVOURS), _r('DISC', rk.disc, ALLF, FLAVOURS, only=DISC6), _r('EXH', rk.exh, ALLF, FLAVOURS),
            _r('TR0', rk.tr0, ALLF, FLAVOURS), _r('INIT', dp.init, FLAVOURS), _r('METHOD', rk.method, FLAVOURS), _r('REV', rm.rev, FLAVOURS), _r('IT2', rg.it2, FLAVOURS), _r('ORIENT', re_.orient, FLAVOURS)],
     explanation='All 48 kernels: the callback runs first and exactly once per yielded edge (EXEC1), a rejected edge neither marks, records nor extends reachability (DISC i), the edge handed '
                 'over is the live iterator item or its value-preserving reverse (DISC vi/vii, REV, IT2), every reachable node is expanded once and completely (EXH, DISC ii/iii, INIT), '
@@ -122,7 +122,7 @@ PROPS['C07'] = dict(
 )
 PROPS['C08'] = dict(
     rules=[_r('ROLES', rk.roles, ALLF, DIRECTED), _r('TR0', rk.tr0, ALLF, DIRECTED), _r('TR1', dp.tr1, DIRECTED), _r('TR2', dp.tr2, DIRECTED), _r('REV', rm.rev, DIRECTED),
-           _r('ORIENT', re_.orient, DIRECTED), _r('DISC', rk.disc, ALLF, DIRECTED)],
+           _r('ORIENT', re_.orient, DIRECTED), _r('DISC', rk.disc, ALLF, DIRECTED, only=DISC6)],
     explanation='Directed flavours: every kernel has a well-formed orientation signature (OUT = iter_out + item, IN = iter_in + reversed item; TR0), every entry point sends the Outbound arm '
                 'to an OUT kernel and the Inbound arm to an IN kernel (TR1, 28 arms per flavour), constructors default to Outbound and only transpose() stores Inbound (TR2), reverse '
                 'swaps endpoints and keeps the value (REV), iter_in reads the IN list and presents (peer, self) (ORIENT).',
@@ -131,7 +131,7 @@ PROPS['C08'] = dict(
     assumptions=STD,
 )
 PROPS['C09'] = dict(
-    rules=kernel_pack(('Bfs', 'Dfs', 'Pfs'), FLAVOURS) + [_r('RESMAP', dp.result_map, FLAVOURS), _r('TR1', dp.tr1, DIRECTED, ('Bfs', 'Dfs', 'Pfs')), _r('PFS1', dp.pfs1, FLAVOURS), _r('BT', rb.bt, FLAVOURS)],
+    rules=kernel_pack(('Bfs', 'Dfs', 'Pfs'), FLAVOURS, 'cycle') + [_r('RESMAP', dp.result_map, FLAVOURS, ('Bfs', 'Dfs', 'Pfs'), 'cycle'), _r('TR1', dp.tr1, DIRECTED, ('Bfs', 'Dfs', 'Pfs'), 'cycle'), _r('PFS1', dp.pfs1, FLAVOURS, 'cycle'), _r('BT', rb.bt, FLAVOURS)],
     explanation='12 cycle entries: target := key(root), root queued and not marked so that it can be re-discovered (CYC-INIT), then the same kernels (DISC/EXH/FRONT), transposed arms (TR1), '
                 'and back-tracking incl. BT-disjoint (the closing edge is not joined to itself).',
     decides='seeding of cycle searches, kernel discipline, back-tracking join and range',
@@ -202,18 +202,18 @@ PROPS['C18'] = dict(
 )
 
 PROPS['C12'] = dict(
-    rules=[_r('SER', rs.ser_rules, FLAVOURS), _r('P1', re_.p1_connect, FLAVOURS), _r('ENC', re_.enc, FLAVOURS, only=('ENC-b',)), _r('ORIENT', re_.orient, FLAVOURS)],
+    rules=[_r('SER', rs.ser_rules, FLAVOURS), _r('P1', re_.p1_connect, FLAVOURS), _r('ENC-push', re_.enc_append, FLAVOURS), _r('ORIENT', re_.orient, FLAVOURS)],
     explanation='Writer/reader agreement on all four flavours: the two serialize_element::<T> calls and the two next_element::<T> calls carry the same element types in the same order '
                 'inside a 2-tuple (SER1); the writer loops over all members and, per member, over an edge iterator whose list footprint is exactly the OUT list, so each edge (stored as '
                 'one OUT half) is written exactly once (SER2); the writer pushes (key(u), key(v), e) and the reader connects (get(t.0), get(t.1), t.2) (SER3); both sides use push and '
-                'forward loops with no reordering call, and connect appends (P1, ENC-b), so each node\'s outgoing order survives (SER4); nodes are written (key, value) once per member and '
+                'forward loops with no reordering call, and connect appends (P1, ENC-push), so each node\'s outgoing order survives (SER4); nodes are written (key, value) once per member and '
                 'rebuilt with insert(Node::new(t.0, t.1)) before any edge is connected (SER5).',
     decides='multiplicity, orientation, order and shape agreement of writer and reader',
     does_not_decide='serde / serde_json / serde_cbor themselves and the Serialize/Deserialize impls of K, N, E',
     assumptions=STD + ['serde data formats round-trip the element types'],
 )
 PROPS['C13'] = dict(
-    rules=[_r('DE', rs.de_rules, FLAVOURS), _r('G3', rg.g3, FLAVOURS, only=('G3',)), _r('MAP', rc.map_rules, FLAVOURS), _r('P1', re_.p1_connect, FLAVOURS)],
+    rules=[_r('DE', rs.de_rules, FLAVOURS), _r('G3', rs.g3_reader, FLAVOURS), _r('MAP', rc.map_rules, FLAVOURS), _r('P1', re_.p1_connect, FLAVOURS)],
     explanation='On visit_seq and everything it calls in-crate: each connect is dominated by the success outcome of both endpoint lookups and a failed lookup returns Err(custom(..)) with no '
                 'connect on the way (DE1); no unwrap/expect/panic/indexing/arithmetic assert in deserialize, visit_seq or their closures (DE2); the graph is built only through '
                 'Graph::insert and Node::connect with arguments taken from document elements (DE3), so the mirror/symmetry invariants follow from C01/C02 (P1) and repeated keys are '
